@@ -155,6 +155,10 @@ func checkC18(c *Ctx) {
 	// crypto/rsa.VerifyPSS with SaltLength 0 (PSSSaltLengthAuto, what the PSSZero verifiers carry) accepts a
 	// salt of any length: the delimiter is searched for
 	c.reachCountUnder(p, "C18.pss", "with sLen = PSSSaltLengthAuto the 0x01 delimiter is searched for (a salt of any length is accepted, as in crypto/rsa)", p.Func(cm, "", "emsaPSSVerify"), map[string]lat{"sLen": latInt(0)}, nil, "bytes.IndexByte", 1)
+	// in auto mode the delimiter may be the first octet of DB (an empty padding string: the longest salt, which
+	// is what crypto/rsa.SignPSS produces with PSSSaltLengthAuto)
+	c.mayAcceptUnder(p, "C18.pss", "with sLen = PSSSaltLengthAuto a delimiter at position 0 (empty padding string) can verify", p.Func(cm, "", "emsaPSSVerify"),
+		map[string]lat{"sLen": latInt(0)}, []Assume{calleeAssume(latInt(0), -1, "bytes.IndexByte")}, nil)
 	// the signer hands out a blind signature of exactly the modulus length (Finalize refuses any other); the
 	// byte size of a key is ceil(bits / 8)
 	for _, pk := range []string{br, pb} {
